@@ -1,4 +1,5 @@
 import LyModel.XmlTree.OpaqOk
+import LyModel.XmlTree.OpaqCheck
 import LyModel.XmlTree.Roundtrip
 /-! The independent document reader applied to what the model prints for a forest of opaque nodes (lemmas; the property theorem
     `opaq_document_faithful` is restated in `Props/C12.lean`). -/
@@ -6,18 +7,6 @@ set_option linter.unusedSimpArgs false
 set_option linter.unusedVariables false
 namespace LyModel.XmlTree
 open LyModel LyModel.XmlDoc LyModel.XmlText
-
-/-- what a namespace-aware reader should report for an attribute: (namespace or empty, name, value) -/
-def viewAttr (a : OAttr) : Bytes × Bytes × Bytes := (a.ns.getD [], a.name, a.value)
-
-mutual
-/-- what a namespace-aware reader should report for an opaque node -/
-def oview : ONode → XElem
-  | .mk name _ ns value _ attrs kids => .mk (ns.getD []) name (attrs.map viewAttr) value (oviewList kids)
-def oviewList : List ONode → List XElem
-  | [] => []
-  | n :: r => oview n :: oviewList r
-end
 
 mutual
 /-- well-formedness of the view of an opaque forest (`inDflt`: an ancestor has a namespace, i.e. a default namespace is in
